@@ -18,6 +18,9 @@
                      invocation of that callback makes these calls (start pause resume stop reset) on the root,
                      synchronously, from inside the callback; each result is reported as `P e ret <b>`
   adv <k>            clock += 100k ms        pass   nothing
+  mark               `pass` + (8n+40) × `adv 60`; the harness records the end state if it is the control-free run of the freshly built tree
+  cmpfresh           (free mode) settle, then the harness compares the end state of a run that began with reset() + start()
+                     on the root with the recorded one ("a reset tree behaves like a freshly built one")
   advr <ms>          clock += ms (raw, ≤ 2^43)      passes <k>   k loop passes (≤ 200000), one snapshot at the end
   advdo <ms> <call>… a LATE pass: the clock moves by ms AFTER the timer phase, then the control calls (Late.lean `stepLate`)
                      leaves Zr<ms> (SleepAction of exactly ms), suffix @r<ms> (setTimeout(ms)), rep:<n> with n < 2^64
@@ -415,6 +418,8 @@ def stepLine (ds : DS) (line : String) : DS × List String :=
         | "icb", _ => some false
         | "settle", [] => some ds.free
         | "settle", _ => some false
+        | "cmpfresh", [] => some ds.free
+        | "cmpfresh", _ => some false
         | _, _ => none
       -- a late pass: `advdo <ms> <call>…`
       let late? : Option (Option (Nat × List Call)) :=
@@ -504,6 +509,18 @@ def stepLineX (ds : DS) (line : String) : DS × List String :=
           (ds', p.2 ++ keep.toArray)) (ds, #[])
         (r.1, ["B passes"] ++ r.2.toList)
       | none => (ds, ["bad-op"])
+  | ["mark"] =>
+      -- `mark` = `pass` followed by 8n+40 times `adv 60`, one snapshot at the end (the harness records the end state)
+      match ds.tree with
+      | none => (ds, ["bad-op"])
+      | some (_, n) =>
+        if ds.free || ds.xs.isSome then (ds, ["bad-op"]) else
+        let k := 8 * n + 41
+        let r := (List.range k).foldl (fun (p : DS × Array String) i =>
+          let (ds', out) := stepLine p.1 (if i == 0 then "pass" else "adv 60")
+          let keep := out.filter fun l => if i + 1 == k then true else !(l.startsWith "P r=") && !(l.startsWith "B ")
+          (ds', p.2 ++ keep.toArray)) (ds, #[])
+        (r.1, ["B mark"] ++ r.2.toList)
   | _ => stepLine ds line
 
 def main : IO Unit := runDriver ({} : DS) stepLineX
